@@ -122,27 +122,27 @@ theorem CntD.step {s s' : Sys} {e : Ev} (hc : CntD s) (hc' : CntD s.swap) (h : s
         obtain ⟨e4, _⟩ := e3
         refine ⟨?_, by show _ = n.raaSent; rw [e2]; exact k2, k3, k4, k5⟩
         show n.csRecv + countCs (rest ++ s.pendA) = s.a.csSent
-        rw [e4]; simp [countCs, List.countP_cons] at k1 ⊢; omega
+        rw [e4]; simp [countCs] at k1 ⊢; omega
       | raa =>
         obtain ⟨e4, _⟩ := e3
         refine ⟨?_, by show _ = n.raaSent; rw [e2]; exact k2, k3, k4, k5⟩
         show n.csRecv + countCs (rest ++ s.pendA) = s.a.csSent
-        rw [e4]; simp [countCs, List.countP_cons] at k1 ⊢; omega
+        rw [e4]; simp [countCs] at k1 ⊢; omega
       | add id amt =>
         obtain ⟨e4, _⟩ := e3
         refine ⟨?_, by show _ = n.raaSent; rw [e2]; exact k2, k3, k4, k5⟩
         show n.csRecv + countCs (rest ++ s.pendA) = s.a.csSent
-        rw [e4]; simp [countCs, List.countP_cons] at k1 ⊢; omega
+        rw [e4]; simp [countCs] at k1 ⊢; omega
       | fulfill id =>
         obtain ⟨e4, _⟩ := e3
         refine ⟨?_, by show _ = n.raaSent; rw [e2]; exact k2, k3, k4, k5⟩
         show n.csRecv + countCs (rest ++ s.pendA) = s.a.csSent
-        rw [e4]; simp [countCs, List.countP_cons] at k1 ⊢; omega
+        rw [e4]; simp [countCs] at k1 ⊢; omega
       | fail id =>
         obtain ⟨e4, _⟩ := e3
         refine ⟨?_, by show _ = n.raaSent; rw [e2]; exact k2, k3, k4, k5⟩
         show n.csRecv + countCs (rest ++ s.pendA) = s.a.csSent
-        rw [e4]; simp [countCs, List.countP_cons] at k1 ⊢; omega
+        rw [e4]; simp [countCs] at k1 ⊢; omega
     · obtain ⟨m, rest, n, okb, hq, hm, e⟩ := step_recv_true h
       subst e
       obtain ⟨e1, e2, e3⟩ := onMsg_counters hm
@@ -152,7 +152,7 @@ theorem CntD.step {s s' : Sys} {e : Ev} (hc : CntD s) (hc' : CntD s.swap) (h : s
         obtain ⟨e4, e5, e6, e7⟩ := e3
         refine ⟨by show _ = n.csSent; rw [e1]; exact k1, ?_, ?_, ?_, k5⟩
         · show n.raaRecv + countRaa rest = s.b.raaSent
-          rw [e6]; simp [countRaa, List.countP_cons] at k2 ⊢; omega
+          rw [e6]; simp [countRaa] at k2 ⊢; omega
         · show n.csSent = n.raaRecv + (if n.awaitingRaa then 1 else 0)
           rw [e1, e6, e7]; exact k3
         · show n.raaSent + n.owesRaa = n.csRecv
@@ -161,7 +161,7 @@ theorem CntD.step {s s' : Sys} {e : Ev} (hc : CntD s) (hc' : CntD s.swap) (h : s
         obtain ⟨e4, e5, e6, e7, e8⟩ := e3
         refine ⟨by show _ = n.csSent; rw [e1]; exact k1, ?_, ?_, ?_, k5⟩
         · show n.raaRecv + countRaa rest = s.b.raaSent
-          rw [e6]; simp [countRaa, List.countP_cons] at k2 ⊢; omega
+          rw [e6]; simp [countRaa] at k2 ⊢; omega
         · show n.csSent = n.raaRecv + (if n.awaitingRaa then 1 else 0)
           rw [e1, e6, e8]; rw [e7] at k3; simpa using k3
         · show n.raaSent + n.owesRaa = n.csRecv
@@ -170,7 +170,7 @@ theorem CntD.step {s s' : Sys} {e : Ev} (hc : CntD s) (hc' : CntD s.swap) (h : s
         obtain ⟨e4, e5, e6, e7⟩ := e3
         refine ⟨by show _ = n.csSent; rw [e1]; exact k1, ?_, ?_, ?_, k5⟩
         · show n.raaRecv + countRaa rest = s.b.raaSent
-          rw [e6]; simp [countRaa, List.countP_cons] at k2 ⊢; omega
+          rw [e6]; simp [countRaa] at k2 ⊢; omega
         · show n.csSent = n.raaRecv + (if n.awaitingRaa then 1 else 0)
           rw [e1, e6, e7]; exact k3
         · show n.raaSent + n.owesRaa = n.csRecv
@@ -179,7 +179,7 @@ theorem CntD.step {s s' : Sys} {e : Ev} (hc : CntD s) (hc' : CntD s.swap) (h : s
         obtain ⟨e4, e5, e6, e7⟩ := e3
         refine ⟨by show _ = n.csSent; rw [e1]; exact k1, ?_, ?_, ?_, k5⟩
         · show n.raaRecv + countRaa rest = s.b.raaSent
-          rw [e6]; simp [countRaa, List.countP_cons] at k2 ⊢; omega
+          rw [e6]; simp [countRaa] at k2 ⊢; omega
         · show n.csSent = n.raaRecv + (if n.awaitingRaa then 1 else 0)
           rw [e1, e6, e7]; exact k3
         · show n.raaSent + n.owesRaa = n.csRecv
@@ -188,7 +188,7 @@ theorem CntD.step {s s' : Sys} {e : Ev} (hc : CntD s) (hc' : CntD s.swap) (h : s
         obtain ⟨e4, e5, e6, e7⟩ := e3
         refine ⟨by show _ = n.csSent; rw [e1]; exact k1, ?_, ?_, ?_, k5⟩
         · show n.raaRecv + countRaa rest = s.b.raaSent
-          rw [e6]; simp [countRaa, List.countP_cons] at k2 ⊢; omega
+          rw [e6]; simp [countRaa] at k2 ⊢; omega
         · show n.csSent = n.raaRecv + (if n.awaitingRaa then 1 else 0)
           rw [e1, e6, e7]; exact k3
         · show n.raaSent + n.owesRaa = n.csRecv
